@@ -198,6 +198,9 @@ def law_vector(rng, fam, extreme=False):
         a, st1 = rand_real(rng)
         w, st2 = rand_pos(rng, "tiny" if extreme else None)
         b = a + w
+        if not extreme and rng.random() < 0.25:
+            a, b = -rand_pos(rng, rng.choice(["int", "frac", "dec"]))[0], rand_pos(rng, rng.choice(["int", "frac", "dec"]))[0]
+            w = b - a
         if a < 0:
             feats.append("negative-location")
         if w < F(1, 1000):
@@ -430,6 +433,13 @@ _TR_TEMPLATES = [
     ("DistExp", ["3/(2*z+y**2)"], "zpos"),
     ("DistExp", ["1/c"], "cpos"),
     ("DistExp", ["1/(z*c)"], "zcpos"),
+    ("Normal", ["y", "1/z"], "zpos"),
+    ("Normal", ["y/z", "z/4+c**2"], "zpos"),
+    ("Normal", ["1", "2"], "any"),
+    ("Laplace", ["1", "z"], "zpos"),
+    ("Uniform", ["-1/2", "0.75"], "any"),
+    ("DistExp", ["z/2"], "zpos"),
+    ("DistExp", ["4/(z+3*c)"], "zcpos"),
 ]
 
 
@@ -458,7 +468,7 @@ def transform_cases(rng, count, kmax=6):
     out = []
     for i in range(count):
         fam, ps, cons = _TR_TEMPLATES[i % len(_TR_TEMPLATES)]
-        where = ["body", "body", "init", "branch"][(i // len(_TR_TEMPLATES)) % 4]
+        where = ["body", "init", "branch", "body"][(i + i // len(_TR_TEMPLATES)) % 4]
         rhs = f"{fam}({', '.join(ps)})"
         if where == "body":
             text = f"x = 0\ny = 1\nz = 2\nwhile true:\n    y = Bernoulli(1/2)\n    x = {rhs}\nend"
